@@ -613,7 +613,7 @@ type FrameDecl struct {
 var ghostDecls = map[string]string{}
 
 var clauseKeywords = map[string]bool{
-	"at": true, "freshresult": true, "set": true,
+	"at": true, "freshresult": true, "set": true, "tag": true, "callsite": true,
 	"requires": true, "ensures": true, "modifies": true, "loop": true, "decreases": true,
 	"pure": true, "inline": true, "safe": true, "assume": true, "returns": true, "nopanic": true,
 	"purefield": true, "cases": true, "replay": true, "panics_if": true, "opaque": true, "reads": true,
@@ -855,7 +855,25 @@ func LoadContractFile(path string, trusted bool) (*ContractSet, error) {
 					c.Expr = rr
 					c.Lhs = l
 					fs.Clauses = append(fs.Clauses, c)
-				case "modifies", "cases", "havoc", "loopmodifies", "frame", "event", "replay", "at":
+				case "callsite":
+					// callsite NAME requires EXPR   (arguments are arg0, arg1, ...)
+					f := strings.SplitN(c.Text, " ", 3)
+					if len(f) != 3 || f[1] != "requires" {
+						return fmt.Errorf("%s:%d: callsite NAME requires EXPR", path, c.Line)
+					}
+					e, err := ParseSExpr(f[2])
+					if err != nil {
+						return fmt.Errorf("%s:%d: %v", path, c.Line, err)
+					}
+					c.Expr = e
+					c.Text = f[0]
+					c.Ord = ordCount["callsite@"+f[0]]
+					ordCount["callsite@"+f[0]]++
+					if c.Props == nil {
+						c.Props = fs.Props
+					}
+					fs.Clauses = append(fs.Clauses, c)
+				case "modifies", "cases", "havoc", "loopmodifies", "frame", "event", "replay", "at", "tag":
 					if c.Props == nil {
 						c.Props = fs.Props
 					}
